@@ -1,4 +1,5 @@
 import Mdsort.Proofs.Mime
+import Mdsort.Proofs.MimeBoundaryRFC
 import Mdsort.Proofs.AttachmentCond
 import Mdsort.Proofs.ExecStdin
 import Mdsort.Proofs.ExecSeqEx
@@ -16,16 +17,17 @@ the parts, and that errors never count as a match, is `C11_attachment_cond` /
 `C11_attachment_block` below (against Spec/Attachment.lean); what an exec action
 receives on its standard input is `C11_exec_stdin` (against Spec/ExecStdin.lean).
 
-What is independent in `Spec/Mime.lean` and what is not (audit au2).  Independently written: the cutting of a body
-into parts (`Spec.cutParts` compares whole LINES, `Model.findBoundary` scans bytes), the pre-order listing and the depth
-limit, the choice among alternatives (`find?` twice against the one-pass `pickAlternative`), the transfer decoders
-(`Spec.b64`, `Spec.qp`: C16).  NOT independent - the same tests written twice, so the theorems say nothing about their
-adequacy: `Spec.boundaryParam` = `Model.parseBoundary` (prefix `multipart/` in LOWER case, the text after the FIRST `;`
-must be `boundary="` - quoted, lower case, first parameter), `Spec.isType` = `Model.isContentType` (case-sensitive
-prefix), and the dispatch of `Spec.decoded` = `Model.decodeBody` (`Content-Transfer-Encoding` compared with `base64` /
-`quoted-printable` case-sensitively and exactly).  RFC 2045 makes all of these case-insensitive and allows an unquoted
-boundary token in any parameter position; for such messages both sides agree on "no parts" / "not encoded" (examples
-after `C11_depth_limit`; observed on the real binary: `attachment` conditions silently do not match, exit 0).
+What is independent in `Spec/Mime.lean` (audit au2, after /repo 098cbec).  Independently written: the cutting of a
+body into parts (`Spec.cutParts` compares whole LINES, `Model.findBoundary` scans bytes), the pre-order listing and the
+depth limit, the choice among alternatives (`find?` twice against the one-pass `pickAlternative`), the transfer decoders
+(`Spec.b64`, `Spec.qp`: C16), and - since 098cbec made message.c case-insensitive - the recognition of the media type
+(`Spec.isType`: the text before the first `;` is the RFC 2045 token pair, compared without regard to case, against the
+model's `strncasecmp` prefix test followed by "`;` or end") and of the transfer encoding (`Spec.decoded`: token
+comparison against `strcasecmp`).  The boundary PARAMETER is read in two ways: `Spec.boundaryParam` (used by
+`Spec.parts`) follows `parseboundary` on purpose - first parameter, quoted - and `Spec.boundaryParamRFC` is the RFC 2045
+parameter scanner (any position, token or quoted-string).  `C11_boundary_param_partial` proves the model equal to the RFC
+reading on the former form; `C11_boundary_param_token_witness` / `_not_first_witness` evaluate the difference, which is
+the listed finding F30 (`attachment` conditions silently do not match such messages).
 
 Hypothesis `Proofs.BoundaryOk` (an executable `Bool`, Proofs/Mime.lean): no multipart entity
 reached by the traversal announces a boundary containing a newline.  RFC 2046 boundaries never
@@ -59,22 +61,58 @@ theorem C11_body (m : Msg) (h : Proofs.BoundaryOk (Gen.mimeDepthLimit + 1) m = t
 /-- The supported nesting depth (regenerated from message.c). -/
 theorem C11_depth_limit : Gen.mimeDepthLimit = 4 := by decide
 
-/-- (audit au2) The reading of the Content-Type / Content-Transfer-Encoding values that specification and model SHARE
-(see the file header): an unquoted boundary, `Multipart/Mixed`, and a boundary that is not the first parameter are
-"not multipart" - `some []`, no parts and no error, on both sides - and `BASE64` is "not encoded". -/
+/-! ## Media type, transfer encoding, boundary parameter (RFC 2045) -/
+
+/-- Letter case does not matter (098cbec): type, subtype, the keyword `boundary`, the encoding name. -/
 example :
     Spec.boundaryParam (ofString "multipart/mixed; boundary=\"b\"") = .some (ofString "b") ∧
-    Spec.boundaryParam (ofString "multipart/mixed; boundary=b") = .none ∧
-    Spec.boundaryParam (ofString "Multipart/Mixed; boundary=\"b\"") = .none ∧
-    Spec.boundaryParam (ofString "multipart/mixed; charset=utf-8; boundary=\"b\"") = .none ∧
-    Spec.boundaryParam (ofString "multipart/mixed; Boundary=\"b\"") = .none ∧
-    getAttachments (parseHeaders (ofString "Content-Type: multipart/mixed; boundary=b\n\n--b\n\nhello\n--b--\n")) = some [] ∧
-    Spec.parts entity (Gen.mimeDepthLimit + 1)
-      (parseHeaders (ofString "Content-Type: multipart/mixed; boundary=b\n\n--b\n\nhello\n--b--\n")) = some [] ∧
-    getBody (parseHeaders (ofString "Content-Transfer-Encoding: BASE64\n\naGVsbG8=\n")) = some (ofString "aGVsbG8=\n") ∧
+    Spec.boundaryParam (ofString "Multipart/Mixed; BOUNDARY=\"b\"") = .some (ofString "b") ∧
+    Spec.boundaryParamRFC (ofString "Multipart/Mixed; BOUNDARY=\"b\"") = .some (ofString "b") ∧
+    Spec.isType (some (ofString "Text/PLAIN; charset=x")) (ofString "text/plain") = true ∧
+    Spec.isType (some (ofString "text/plainer")) (ofString "text/plain") = false ∧
+    (getAttachments (parseHeaders (ofString "Content-Type: MULTIPART/Mixed; Boundary=\"b\"\n\n--b\n\nhello\n--b--\n"))).map List.length = some 1 ∧
+    getBody (parseHeaders (ofString "Content-Transfer-Encoding: BASE64\n\naGVsbG8=\n")) = some (ofString "hello") ∧
     Spec.decodedBody entity Gen.mimeDepthLimit
-      (parseHeaders (ofString "Content-Transfer-Encoding: BASE64\n\naGVsbG8=\n")) = some (ofString "aGVsbG8=\n") ∧
-    getBody (parseHeaders (ofString "Content-Transfer-Encoding: base64\n\naGVsbG8=\n")) = some (ofString "hello") := by
+      (parseHeaders (ofString "Content-Transfer-Encoding: Base64\n\naGVsbG8=\n")) = some (ofString "hello") ∧
+    getBody (parseHeaders (ofString "Content-Transfer-Encoding: Quoted-Printable\n\na=3Db\n")) = some (ofString "a=b\n") := by
+  decide +kernel
+
+/-- **`parseboundary` against RFC 2045, partial.**  For every Content-Type value of the form `Proofs.FirstQuoted ct b` -
+`multipart` (any case) `/` subtype, blanks, `;`, blanks, `boundary` (any case) `="`, the text `b` without a `"`, `"`,
+anything - the model's `parseBoundary` and the RFC parameter scanner `Spec.boundaryParamRFC` agree, and give `b`
+(invalid if `b` is empty).  Outside that form they differ: the two witnesses below (finding F30). -/
+theorem C11_boundary_param_partial (ct b : Bytes) (h : Proofs.FirstQuoted ct b) :
+    Proofs.boundaryToSpec (parseBoundary ct) = Spec.boundaryParamRFC ct ∧
+    Spec.boundaryParamRFC ct = if b.isEmpty then .bad else .some b := by
+  rw [← Proofs.boundaryParam_eq, Proofs.mdsort_of_firstQuoted ct b h, Proofs.rfc_of_firstQuoted ct b h]
+  exact ⟨rfl, rfl⟩
+
+/-- Non-vacuity: `Multipart/Signed ;  BOUNDARY="b1"; protocol="application/pgp-signature"`. -/
+example : Proofs.FirstQuoted (ofString "Multipart/Signed ;  BOUNDARY=\"b1\"; protocol=\"application/pgp-signature\"")
+    (ofString "b1") :=
+  ⟨ofString "Multipart", ofString "Signed", ofString " ", ofString "  ", ofString "BOUNDARY",
+   ofString "; protocol=\"application/pgp-signature\"", by decide +kernel, by decide +kernel, by decide +kernel,
+   by decide +kernel, by decide +kernel, by decide +kernel, by decide +kernel⟩
+
+/-- F30, token form: `multipart/mixed; boundary=b1` - RFC 2045: boundary `b1`; `parseboundary`: not multipart.  On the
+whole message the RFC reading sees one part, the model (as message.c) none and no error. -/
+theorem C11_boundary_param_token_witness :
+    Spec.boundaryParamRFC (ofString "multipart/mixed; boundary=b1") = .some (ofString "b1") ∧
+    parseBoundary (ofString "multipart/mixed; boundary=b1") = .notMultipart ∧
+    (Spec.partsRFC entity (Gen.mimeDepthLimit + 1)
+      (parseHeaders (ofString "Content-Type: multipart/mixed; boundary=b1\n\n--b1\n\nhello\n--b1--\n"))).map List.length = some 1 ∧
+    getAttachments (parseHeaders (ofString "Content-Type: multipart/mixed; boundary=b1\n\n--b1\n\nhello\n--b1--\n")) = some [] := by
+  decide +kernel
+
+/-- F30, another parameter first: `multipart/signed; protocol="application/pgp-signature"; boundary="b1"`. -/
+theorem C11_boundary_param_not_first_witness :
+    Spec.boundaryParamRFC (ofString "multipart/signed; protocol=\"application/pgp-signature\"; boundary=\"b1\"") =
+      .some (ofString "b1") ∧
+    parseBoundary (ofString "multipart/signed; protocol=\"application/pgp-signature\"; boundary=\"b1\"") = .notMultipart ∧
+    (Spec.partsRFC entity (Gen.mimeDepthLimit + 1)
+      (parseHeaders (ofString "Content-Type: multipart/signed; protocol=\"application/pgp-signature\"; boundary=\"b1\"\n\n--b1\n\nhello\n--b1--\n"))).map
+        List.length = some 1 ∧
+    getAttachments (parseHeaders (ofString "Content-Type: multipart/signed; protocol=\"application/pgp-signature\"; boundary=\"b1\"\n\n--b1\n\nhello\n--b1--\n")) = some [] := by
   decide +kernel
 
 /-! ## The statements without the hypothesis, and why they fail -/
